@@ -107,8 +107,11 @@ extern "C" int __real_debug_message(const char *fmt, ...);
 static void sim_walk_now();
 static void sim_memstat();
 extern "C" int __wrap_debug_message(const char *fmt, ...) {
-  char msg[8192];
-  va_list ap; va_start(ap, fmt); vsnprintf(msg, sizeof msg, fmt, ap); va_end(ap);
+  va_list ap, ap2; va_start(ap, fmt); va_copy(ap2, ap);
+  int need = vsnprintf(nullptr, 0, fmt, ap); va_end(ap);
+  std::string store((size_t)(need > 0 ? need : 0) + 1, '\0');     // records (WDUMP of a large world) can exceed any fixed buffer
+  vsnprintf(&store[0], store.size(), fmt, ap2); va_end(ap2);
+  char *msg = &store[0];
   if (msg[0] == '@' && msg[1] == 'R' && msg[2] == ' ') {
     ev("R %s", msg + 3); S.stats["rec"]++;
     if (!strncmp(msg + 3, "WALK", 4)) sim_walk_now();   // structure walk requested from LPC (possibly in the middle of a hook)
